@@ -126,9 +126,53 @@ def _inet_aton(s):
     return py_aton(s)
 
 
+def _user_hashed(x):
+    """an instance of a user-defined class with its own __hash__ (e.g. bacpypes Address,
+    whose __eq__ accepts more than its __hash__ distinguishes: Address(20) == 20)"""
+    with NoTracing():
+        if isinstance(x, CrossHairValue):
+            return False
+        t = type(x)
+        if getattr(t, "__module__", "builtins") == "builtins":
+            return False
+        h = getattr(t, "__hash__", None)
+        return h is not None and h is not object.__hash__
+
+
+def _faithful_simpledict():
+    """CrossHair turns a concrete dict indexed by a non-primitive key into a SimpleDict,
+    which finds entries by `==` alone.  Real dicts also require equal hashes; for classes
+    whose __eq__ is wider than their __hash__ the two differ (observed: a cache holding
+    key 20 answered a lookup by Address(20)).  Restore the hash condition for such keys."""
+    from crosshair.simplestructs import SimpleDict, _MISSING
+    orig = SimpleDict.__getitem__
+
+    def __getitem__(self, key, default=_MISSING):
+        special = _user_hashed(key)
+        if not special:
+            for k, _ in self.contents_:
+                if _user_hashed(k):
+                    special = True
+                    break
+        if not special:
+            return orig(self, key, default)
+        hk = hash(key)
+        for k, v in self.contents_:
+            if k is key:
+                return v
+            if hash(k) == hk and k == key:
+                return v
+        if default is _MISSING:
+            raise KeyError
+        return default
+
+    SimpleDict.__getitem__ = __getitem__
+
+
 def install():
     register_patch(socket.inet_ntoa, _inet_ntoa)
     register_patch(socket.inet_aton, _inet_aton)
+    _faithful_simpledict()
 
 
 def conformance():
